@@ -324,8 +324,10 @@ def correspondence(ctx):
     for b in bad[:3]:
         ctx.broken.append(('correspondence', 'sandbox-skeleton-vs-implementation', items[b[1]] if b[0] == 'mismatch' else b[2]))
     ctx.rule = ('exception zoo: every builtin exception class constructible from one string, user classes under Exception and '
-                'BaseException (with __str__/__repr__ that raise or return non-str), SystemExit in three forms, unbounded recursion, '
+                'BaseException (with __str__/__repr__ that raise or return non-str, falsy instances, raising __bool__/__setattr__/__eq__, '
+                'arguments plus a raising __str__, empty messages, a hand-raised SyntaxError naming a foreign file), SystemExit in four forms, unbounded recursion, '
                 'natural runtime errors, every blocked builtin/module, syntax errors incl. NUL byte and deep nesting; through run / '
-                'call / evaluate / import of a student file, random tracer style; histories of 2-5 failing executions with probe '
+                'call / evaluate / import of a student file, random tracer style; student code tampering with the patched objects '
+                '(closing / rebinding / deleting sys.stdout, replacing time.sleep, sys.settrace under the native tracer); histories of 2-5 failing executions with probe '
                 'executions between them; threaded time-outs. Process-global state compared before/after every execution.')
     ctx.extra_cov['contracts'] = {k: v for k, v in sandbox_flow.CONTRACTS.items()}
